@@ -1,0 +1,138 @@
+//! Verification shim (only compiled with `--cfg isographlabs_isograph_verif_loom`).
+//!
+//! Re-implements the handful of `std::sync::atomic` / `parking_lot` items that
+//! `atomic_arena` and `sharded_set` use on top of `loom`, so that a model checker
+//! can explore thread interleavings of the real arena and sharded set code.
+//! The atomics and the mutex are const-constructible (the arena has `const fn`
+//! constructors) and register their loom object lazily; a model must call
+//! `verif_force_init` on the structure in the parent thread before spawning.
+
+use std::sync::OnceLock;
+
+pub use loom::sync::atomic::Ordering;
+pub use loom::sync::RwLockReadGuard;
+pub use loom::sync::RwLockWriteGuard;
+
+pub struct AtomicU32 {
+    init: u32,
+    cell: OnceLock<loom::sync::atomic::AtomicU32>,
+}
+
+impl AtomicU32 {
+    pub const fn new(v: u32) -> Self {
+        AtomicU32 {
+            init: v,
+            cell: OnceLock::new(),
+        }
+    }
+    fn inner(&self) -> &loom::sync::atomic::AtomicU32 {
+        self.cell
+            .get_or_init(|| loom::sync::atomic::AtomicU32::new(self.init))
+    }
+    pub fn verif_force_init(&self) {
+        let _ = self.inner();
+    }
+    #[track_caller]
+    pub fn load(&self, o: Ordering) -> u32 {
+        self.inner().load(o)
+    }
+    #[track_caller]
+    pub fn store(&self, v: u32, o: Ordering) {
+        self.inner().store(v, o)
+    }
+    #[track_caller]
+    pub fn fetch_add(&self, v: u32, o: Ordering) -> u32 {
+        self.inner().fetch_add(v, o)
+    }
+    #[track_caller]
+    pub fn compare_exchange(
+        &self,
+        current: u32,
+        new: u32,
+        success: Ordering,
+        failure: Ordering,
+    ) -> Result<u32, u32> {
+        self.inner().compare_exchange(current, new, success, failure)
+    }
+}
+
+pub struct AtomicPtr<T> {
+    init: *mut T,
+    cell: OnceLock<loom::sync::atomic::AtomicPtr<T>>,
+}
+
+unsafe impl<T> Send for AtomicPtr<T> {}
+unsafe impl<T> Sync for AtomicPtr<T> {}
+
+impl<T> AtomicPtr<T> {
+    pub const fn new(p: *mut T) -> Self {
+        AtomicPtr {
+            init: p,
+            cell: OnceLock::new(),
+        }
+    }
+    fn inner(&self) -> &loom::sync::atomic::AtomicPtr<T> {
+        self.cell
+            .get_or_init(|| loom::sync::atomic::AtomicPtr::new(self.init))
+    }
+    pub fn verif_force_init(&self) {
+        let _ = self.inner();
+    }
+    #[track_caller]
+    pub fn load(&self, o: Ordering) -> *mut T {
+        self.inner().load(o)
+    }
+    #[track_caller]
+    pub fn store(&self, p: *mut T, o: Ordering) {
+        self.inner().store(p, o)
+    }
+}
+
+pub struct Mutex<T> {
+    cell: OnceLock<loom::sync::Mutex<()>>,
+    _value: T,
+}
+
+pub const fn const_mutex(v: ()) -> Mutex<()> {
+    Mutex {
+        cell: OnceLock::new(),
+        _value: v,
+    }
+}
+
+impl Mutex<()> {
+    fn inner(&self) -> &loom::sync::Mutex<()> {
+        self.cell.get_or_init(|| loom::sync::Mutex::new(()))
+    }
+    pub fn verif_force_init(&self) {
+        let _ = self.inner();
+    }
+    #[track_caller]
+    pub fn lock(&self) -> loom::sync::MutexGuard<'_, ()> {
+        self.inner().lock().unwrap()
+    }
+}
+
+/// `parking_lot::RwLock` surface over `loom::sync::RwLock`.
+pub struct RwLock<T>(loom::sync::RwLock<T>);
+
+impl<T: Default> Default for RwLock<T> {
+    fn default() -> Self {
+        RwLock(loom::sync::RwLock::new(T::default()))
+    }
+}
+
+impl<T> RwLock<T> {
+    #[track_caller]
+    pub fn try_write(&self) -> Option<RwLockWriteGuard<'_, T>> {
+        self.0.try_write().ok()
+    }
+    #[track_caller]
+    pub fn write(&self) -> RwLockWriteGuard<'_, T> {
+        self.0.write().unwrap()
+    }
+    #[track_caller]
+    pub fn read(&self) -> RwLockReadGuard<'_, T> {
+        self.0.read().unwrap()
+    }
+}
